@@ -71,16 +71,36 @@ def run(chk):
     R2 = "R-FIXUP-ITERATION"
     chk.rule(R2, "between two evaluations of it.is_valid() exactly one of it.next() / it.resolve_and_next() runs on every path, and "
                  "resolve_and_next() (which frees the fixup) is reached only after write_offset() returned true or a relocation payload was adjusted")
+    # unit-local bool helpers that return the result of write_offset()
+    wo_wrappers = set()
+    fw_ = chk.facts(UNIT, funcs=r"asmjit::[A-Za-z_0-9]+$")
+    for g_ in cfg.load_functions(fw_):
+        if (g_.raw.get("ret") or "") == "bool":
+            for b_, idx_, r_ in g_.return_sites():
+                v_ = g_.e(g_.strip(g_.e(r_).get("val"))) if g_.e(r_).get("val") is not None else None
+                if v_ is not None and v_["k"] in ("call", "mcall") and v_.get("cn") == "write_offset":
+                    wo_wrappers.add(g_.name)
     for name in ("CodeHolder::bind_label", "CodeHolder::resolve_cross_section_fixups"):
         fn = fns[name]
         viol = iteration_counts(fn)
         chk.ob(R2, name + "|one-advance-per-iteration", not viol, loc=fn.loc(viol[0][0]) if viol else "%s:%d" % (UNIT, fn.line),
                detail="; ".join(v[1] for v in viol[:3]))
 
+        def is_patch_call(x):
+            return x is not None and x["k"] in ("call", "mcall") and (x.get("cn") == "write_offset" or x.get("callee") in wo_wrappers)
+
         def edge_fx(b, si, atom, holds, facts):
             x = fn.e(atom)
-            if x and x["k"] in ("call", "mcall") and x.get("cn") == "write_offset" and holds:
+            if is_patch_call(x) and holds:
                 return [("patched",)]
+            if x is not None and x["k"] == "ref" and x.get("dk") == "local":
+                # a bool local that carries the result (`resolved = try_patch(...)`) or a literal
+                d = x.get("did")
+                lits = [t[2] for t in facts if t[0] == "lit" and t[1] == d]
+                if lits and lits[0] != holds:
+                    return "INFEASIBLE"
+                if holds and ("carrier", d) in facts:
+                    return [("patched",)]
             return ()
 
         def elem_fx(eid, x, facts):
@@ -88,6 +108,22 @@ def run(chk):
                 return ((("patched",),), ())
             if x["k"] == "mcall" and x.get("cn") == "is_valid" and x.get("m") != "ASMJIT_ASSERT":
                 return ((), (("patched",),))
+            rhs, did_ = None, None
+            if x["k"] == "binop" and x["op"] == "=":
+                l = fn.e(fn.strip(x["lhs"]))
+                if l is not None and l["k"] == "ref" and l.get("dk") == "local" and "bool" in (l.get("ty") or ""):
+                    did_, rhs = l["did"], fn.e(fn.strip(x["rhs"]))
+            elif x["k"] == "decl":
+                for v_ in x["vars"]:
+                    if "bool" in (v_.get("ty") or "") and v_.get("init") is not None:
+                        did_, rhs = v_["did"], fn.e(fn.strip(v_["init"]))
+            if did_ is not None and rhs is not None:
+                kills = [t for t in facts if t[0] in ("lit", "carrier") and t[1] == did_]
+                if is_patch_call(rhs):
+                    return ([("carrier", did_)], kills)
+                if rhs["k"] == "bool" or isinstance(rhs.get("cv"), int):
+                    return ([("lit", did_, bool(rhs.get("cv")))], kills)
+                return ([], kills)
             return None
         from lib.relational import Relational
         m = Relational(fn, elem_fx, edge_fx)
